@@ -96,6 +96,21 @@ Theorem C11_at_most_once : forall ls s m g g', run true init ls = Some s -> g < 
   (forall h, h < ngen s -> holds (sp (gens s h)) <> Some m).
 Proof. exact ClientConnProofs.at_most_once. Qed.
 
+(* --- connection.close is atomic w.r.t. the swap of the current connection --------------------------------- *)
+(* identity test and flag write are one step (connLock; ReConnect holds it for the whole dial): the test is decided
+   on the state in which the flag is written, however long a re-dial in progress takes *)
+Theorem C11_close_atomic : forall s l s' g, step true s l = Some s' -> closes l = Some g ->
+  closedF s' = (if is_cur s g then true else closedF s) /\ cur s' = cur s.
+Proof. exact ClientConnProofs.close_atomic. Qed.
+
+(* the seeded variant C11-m11 (test before the lock, flag after it) flags the freshly dialled connection closed *)
+Theorem C11_close_m11_refuted : exists s0 s1, run true init [LReconnect; LLogPClose 0; LPeerClose 0; LRClose 0] = Some s0 /\
+  close_decide_m11 s0 0 = true /\ step true s0 LReconnect = Some s1 /\
+  let s2 := close_commit_m11 s1 0 in
+  closedF s2 = true /\ cur s2 = Some 1 /\ dead (gens s2 1) = false /\ peerc (gens s2 1) = false /\
+  closedF (do_close true s1 0) = false.
+Proof. exact ClientConnProofs.m11_refuted. Qed.
+
 (* --- endpoint down: a failed dial leaves the client closed, so the next call dials again ------------------ *)
 (* [LReconnectFail] is a label like any other: all theorems above quantify over runs with failed dials interleaved *)
 Theorem C11_failed_dial_leaves_closed : forall s s', step true s LReconnectFail = Some s' -> s' = s /\ closedF s' = true.
@@ -187,6 +202,8 @@ Print Assumptions C11_delivery_inevitable.
 Print Assumptions C11_call_after_known_close.
 Print Assumptions C11_delivery_example.
 Print Assumptions C11_at_most_once.
+Print Assumptions C11_close_atomic.
+Print Assumptions C11_close_m11_refuted.
 Print Assumptions C11_failed_dial_leaves_closed.
 Print Assumptions C11_call_after_failed_dial.
 Print Assumptions C11_failed_dial_m3_refuted.
